@@ -240,7 +240,10 @@ func init() {
 		old.Spec.ParallelTrialCount = i32p(int32(1 + rng.Intn(3)))
 		old.Spec.MaxTrialCount = optInt32(rng, 4, 3, 8)
 		old.Spec.MaxFailedTrialCount = optInt32(rng, 3, 0, 3)
-		old.Spec.ResumePolicy = pick(rng, []experimentsv1beta1.ResumePolicyType{experimentsv1beta1.LongRunning, experimentsv1beta1.FromVolume, experimentsv1beta1.NeverResume})
+		old.Spec.ResumePolicy = pick(rng, []experimentsv1beta1.ResumePolicyType{experimentsv1beta1.LongRunning, experimentsv1beta1.FromVolume, experimentsv1beta1.NeverResume,
+			experimentsv1beta1.LongRunning, experimentsv1beta1.FromVolume, experimentsv1beta1.NeverResume, ""})
+		// a stored object that was never defaulted (resumePolicy ""): the update is validated as submitted, without re-defaulting
+		undefaulted := old.Spec.ResumePolicy == ""
 		old.Status.Trials = int32(rng.Intn(7))
 		state := rng.Intn(5)
 		if state == 4 {
@@ -262,6 +265,10 @@ func init() {
 		tags := []string{fmt.Sprintf("state=%d", state)}
 		path := "-"
 		mode := rng.Intn(10)
+		if mode >= 6 {
+			// edits that zero pointers are only meaningful on re-defaulted objects (the validator presumes defaulting)
+			undefaulted = false
+		}
 		if mode >= 2 && mode <= 5 || mode >= 8 { // budget edit
 			for _, f := range []**int32{&nw.Spec.ParallelTrialCount, &nw.Spec.MaxTrialCount, &nw.Spec.MaxFailedTrialCount} {
 				switch rng.Intn(4) {
@@ -292,7 +299,11 @@ func init() {
 			nw.Status.Trials++
 			tags = append(tags, "no-spec-edit")
 		}
-		nw.SetDefault() // the mutating webhook re-defaults the object on UPDATE
+		if !undefaulted {
+			nw.SetDefault() // the mutating webhook re-defaults the object on UPDATE
+		} else {
+			tags = append(tags, "stored-undefaulted")
+		}
 		zero := func(e *experimentsv1beta1.Experiment) *experimentsv1beta1.ExperimentSpec {
 			c := e.Spec.DeepCopy()
 			c.ParallelTrialCount, c.MaxTrialCount, c.MaxFailedTrialCount = nil, nil, nil
@@ -325,7 +336,7 @@ func init() {
 		}
 		op := fmt.Sprintf("C15 %s %s %s 0 %s %s %s %d %d %d %s %s %s", optTok(old.Spec.ParallelTrialCount), optTok(old.Spec.MaxTrialCount), optTok(old.Spec.MaxFailedTrialCount),
 			optTok(nw.Spec.ParallelTrialCount), optTok(nw.Spec.MaxTrialCount), optTok(nw.Spec.MaxFailedTrialCount), newRest,
-			old.Status.Trials, state, resumeTok(old.Spec.ResumePolicy), b01(createOk), hx(path))
+			old.Status.Trials, state, hx(string(old.Spec.ResumePolicy)), b01(createOk), hx(path))
 	_ = restartable
 		return Case{Ops: []string{op}, Impl: []string{impl}, Tags: tags, Trivial: mode <= 1}
 	}
